@@ -59,10 +59,10 @@ Proof. vm_compute. reflexivity. Qed.
 From RZ.proofs Require Import SeqLaws ExprCorrect StmtCorrect.
 Theorem C05_statements_correct_repaired :
   forall (cfg : config) (rw : regwidth) (IM : string -> bool) (ilsubs : subenv) (E : cenv) (csub : csubs) xi prog D' V',
-  cfg_fx cfg = all_fixes -> cfg_params cfg = [] -> macs_std (cfg_macros cfg) -> subs_ext (cfg_subs cfg) -> csub_ext csub ->
+  cfg_fx cfg = all_fixes -> cfg_params cfg = [] -> macs_std (cfg_macros cfg) -> subs_ext (cfg_subs cfg) -> csub_ext csub -> xi_ok xi ->
   im_ok IM -> sfrags rw IM [] [] prog D' V' ->
-  exists eff, tlower_info cfg prog = OK (mkti eff (cfg_hstart cfg) 0 false []) /\
-    tlower cfg prog = OK (eff, cfg_hstart cfg) /\
+  exists eff h', tlower_info cfg prog = OK (mkti eff h' 0 false []) /\
+    tlower cfg prog = OK (eff, h') /\ (cfg_hstart cfg <= h')%N /\
     forall cs ms fuel cs', srel IM E [] [] cs ms -> imm_fresh IM cs -> cexecs E csub xi fuel cs prog = Some cs' ->
       exists ms', runs rw ilsubs eff ms ms' /\ srel IM E D' V' cs' ms'.
 Proof. exact tlower_correct. Qed.
@@ -75,22 +75,23 @@ Proof. exact StmtCorrect.Example.prog_in_fragment. Qed.
    depend on the repair switches": the same conclusion for the configuration the real compiler has today *)
 Theorem C05_statements_correct_partial :
   forall (cfg : config) (rw : regwidth) (IM : string -> bool) (ilsubs : subenv) (E : cenv) (csub : csubs) xi prog D' V',
-  cfg_params cfg = [] -> macs_std (cfg_macros cfg) -> subs_ext (cfg_subs cfg) -> csub_ext csub ->
+  cfg_params cfg = [] -> macs_std (cfg_macros cfg) -> subs_ext (cfg_subs cfg) -> csub_ext csub -> xi_ok xi ->
   im_ok IM -> sfrags rw IM [] [] prog D' V' ->
   tlower_info cfg prog = tlower_info (with_fx all_fixes cfg) prog ->
-  exists eff, tlower_info cfg prog = OK (mkti eff (cfg_hstart cfg) 0 false []) /\
+  exists eff h', tlower_info cfg prog = OK (mkti eff h' 0 false []) /\ (cfg_hstart cfg <= h')%N /\
     forall cs ms fuel cs', srel IM E [] [] cs ms -> imm_fresh IM cs -> cexecs E csub xi fuel cs prog = Some cs' ->
       exists ms', runs rw ilsubs eff ms ms' /\ srel IM E D' V' cs' ms'.
 Proof.
-  intros cfg rw IM ilsubs E csub xi prog D' V' Hp Hm Hs Hc Him Hf Heq.
-  destruct (tlower_correct (with_fx all_fixes cfg) rw IM ilsubs E csub xi prog D' V') as [eff [H1 [_ H3]]].
+  intros cfg rw IM ilsubs E csub xi prog D' V' Hp Hm Hs Hc Hx Him Hf Heq.
+  destruct (tlower_correct (with_fx all_fixes cfg) rw IM ilsubs E csub xi prog D' V') as [eff [h' [H1 [_ [Hle H3]]]]].
   - destruct cfg; reflexivity.
   - destruct cfg; exact Hp.
   - destruct cfg; exact Hm.
   - destruct cfg; exact Hs.
   - exact Hc.
+  - exact Hx.
   - exact Him.
   - exact Hf.
-  - exists eff. split; [|exact H3]. rewrite Heq. destruct cfg; exact H1.
+  - exists eff, h'. split; [rewrite Heq; destruct cfg; exact H1|]. split; [destruct cfg; exact Hle | exact H3].
 Qed.
 Print Assumptions C05_statements_correct_partial.
